@@ -26,7 +26,7 @@ macro_rules! impl_div_assign_match_arms {
         I16, "i16";
         I32, "i32";
         I64, "i64";
-        U128, "u128";
+        I128, "i128";
         F32, "f32"; 
         F64, "f64" ;
         C64, "complex";
@@ -68,7 +68,7 @@ fn div_assign_value_fxn(sink: Value, source: Value) -> MResult<Box<dyn MechFunct
     I16, "i16";
     I32, "i32";
     I64, "i64";
-    U128, "u128";
+    I128, "i128";
     F32, "f32";
     F64, "f64";
     R64, "rational";
